@@ -170,8 +170,11 @@ func c05Finalize(c *Ctx, pkg string, B int64, bits int) {
 	for _, c0 := range []int64{0, 1, B - 1, B, B + 1, 1000} {
 		for _, c1 := range []int64{0, 7} {
 			for o := int64(0); o <= B; o += max(1, B/16) {
-				w := &pathWalker{env: newEnv(), lengths: true, maxSteps: 20000}
-				w.state = map[string]int64{"d.offset": o, "c[0]": c0, "c[1]": c1}
+				w := &pathWalker{env: newEnv(), lengths: true, maxSteps: 20000, opaque: map[string]bool{"hashBlocks": true}}
+				// the digest's own counter; finalize works on a local copy of it,
+				// identified as the array handed to hashBlocks (whatever its name)
+				recv := f.Params[0].Name()
+				w.state = map[string]int64{recv + ".offset": o, recv + ".c[0]": c0, recv + ".c[1]": c1}
 				var gotFlag int64 = -1
 				var blkLen int64 = -1
 				var copied int64 = -1
@@ -182,7 +185,8 @@ func c05Finalize(c *Ctx, pkg string, B int64, bits int) {
 					case pkg + ".hashBlocks":
 						gotFlag, _ = w.env.eval(cc.Args[2])
 						blkLen, _ = w.env.eval(cc.Args[3])
-						atCall = [2]int64{w.state["c[0]"], w.state["c[1]"]}
+						cp := w.path(cc.Args[1])
+						atCall = [2]int64{w.state[cp+"[0]"], w.state[cp+"[1]"]}
 						if _, isAlloc := allocOf(cc.Args[1]); !isAlloc {
 							bad = "finalize hands the digest's own counter to hashBlocks"
 						}
